@@ -6,6 +6,7 @@ package checks
 import (
 	"encoding/json"
 	"fmt"
+	"math/big"
 	"net/http"
 	"sort"
 	"strings"
@@ -45,7 +46,7 @@ func c19Instantiate(t *rapid.T, pattern string) string {
 	}
 	// percent-encoded separators and dots: routers that match on the encoded path and middlewares that look at
 	// the decoded one do not see the same segments
-	rep("ledger", []string{"l1", "default", "fresh1", "fresh2", "_info", "_bulk", "transactions", "a-b_c", "x", "team%2Fpay", "l1%2f", "%2e%2e", "l%201", "a%3Ab", "l1%3Fx"})
+	rep("ledger", []string{"l1", "default", "fresh1", "fresh2", "v2", "v2x", "v2-eu", "v1", "api", "_info", "_bulk", "transactions", "a-b_c", "x", "team%2Fpay", "l1%2f", "%2e%2e", "l%201", "a%3Ab", "l1%3Fx"})
 	rep("id", []string{"0", "1", "42", "abc", "18446744073709551616", "-1", "0%2F1", "%30"})
 	rep("address", []string{"a", "users:001", "a:b:c", "world", "bad--addr", "users%3A001", "a%2Fb"})
 	rep("key", []string{"k", "a-b", "x y", "kyc%2Flevel", "k%2fx"})
@@ -622,8 +623,9 @@ func bulkOverEngine(rt *rapid.T, c *evid.Collector, prop string) {
 	}
 	var resp struct {
 		Data []struct {
-			ResponseType string `json:"responseType"`
-			ErrorCode    string `json:"errorCode"`
+			ResponseType string          `json:"responseType"`
+			ErrorCode    string          `json:"errorCode"`
+			Data         json.RawMessage `json:"data"`
 		} `json:"data"`
 	}
 	if aborted {
@@ -675,5 +677,53 @@ func bulkOverEngine(rt *rapid.T, c *evid.Collector, prop string) {
 	}
 	if strings.Join(got, ",") != strings.Join(want, ",") {
 		fail(prop+"/real-engine-log", "the log holds %v, the bulk defines %v (executed strictly in order, stopping at the first failure unless asked to continue)", got, want)
+		return
+	}
+	// the result at position i describes what element i did: a transaction-producing element is answered with the
+	// transaction its own log entry holds (id included)
+	if aborted {
+		return
+	}
+	ei := 0
+	for pi, i := range processed {
+		if !els[i].ok {
+			continue
+		}
+		entry := store.Entries[ei].Log
+		ei++
+		var stored *ledger.Transaction
+		switch p := entry.Data.(type) {
+		case ledger.NewTransactionLogPayload:
+			stored = p.Transaction
+		case ledger.RevertedTransactionLogPayload:
+			stored = p.RevertTransaction
+		}
+		if stored == nil {
+			continue
+		}
+		var answered struct {
+			ID       *big.Int `json:"id"`
+			Postings []struct {
+				Source      string   `json:"source"`
+				Destination string   `json:"destination"`
+				Amount      *big.Int `json:"amount"`
+				Asset       string   `json:"asset"`
+			} `json:"postings"`
+		}
+		if err := json.Unmarshal(resp.Data[pi].Data, &answered); err != nil || answered.ID == nil {
+			fail(prop+"/result-content", "result %d (element %d, %s) carries no transaction: %s", pi, i, els[i].kind, clip(string(resp.Data[pi].Data)))
+			return
+		}
+		same := answered.ID.Cmp(stored.ID) == 0 && len(answered.Postings) == len(stored.Postings)
+		for k := 0; same && k < len(stored.Postings); k++ {
+			q := stored.Postings[k]
+			a := answered.Postings[k]
+			same = a.Source == q.Source && a.Destination == q.Destination && a.Asset == q.Asset && a.Amount != nil && a.Amount.Cmp(q.Amount) == 0
+		}
+		if !same {
+			b, _ := json.Marshal(stored)
+			fail(prop+"/result-content", "result %d does not describe what element %d (%s) did: it answers %s, the log entry of that element holds %s", pi, i, els[i].kind, clip(string(resp.Data[pi].Data)), b)
+			return
+		}
 	}
 }
